@@ -1,6 +1,7 @@
 (* Decoding of C07 cases and the verdict.
 
-   kind 0701: input = (view prior (unchanged-path ...) (merge differ) script capacity progress)
+   kind 0701: input = (view prior (unchanged-path ...) (merge differ) script capacity progress [transport])
+              (transport = how the harness moves the packets, harness/c0607_transport.go; the verdict does not depend on it)
               impl  = (trace hang (taken ((path content) ...)) (taken ((path content) ...)) late)
    trace = events at the boundary of the real fsutil.Receive call; first listing = regular
    files of the destination when the reference sender received FIN, second = after return.
@@ -13,7 +14,7 @@
    Model output := implementation output when the acceptor accepts and the payload lists
    it stored agree with the disk. *)
 From Coq Require Import List NArith Bool.
-From FS Require Import Sx Model.Path Model.Stat Model.Tree Model.AccEvents Model.SenderAcc Model.ReceiverAcc Glue.C06G.
+From FS Require Import Sx Model.Path Model.Stat Model.Tree Model.Validator Model.AccEvents Model.SenderAcc Model.ReceiverAcc Glue.C06G.
 Import ListNotations.
 Open Scope N_scope.
 Open Scope bool_scope.
@@ -27,6 +28,27 @@ Definition dec_listing (s : sx) : option (bool * list (bytes * bytes)) :=
   end.
 Fixpoint plookup (p : bytes) (l : list (bytes * bytes)) : option bytes :=
   match l with [] => None | (q, c) :: r => if bytes_eqb p q then Some c else plookup p r end.
+
+(* Well-formedness of a case.  The reference sender announces [walk_root view]; it is a
+   conforming sender only if that sequence is one a sender may send: accepted by the order
+   validator (validator.go, C12) and every hard-link target announced before as a file that is
+   not itself a link (hardlinks.go).  The generators only produce such views; a view that is
+   not (reached only by structural shrinking of a failing case) is rejected legitimately by
+   the receiver and says nothing about C07: such a case is malformed, not a witness. *)
+Fixpoint links_ok (seen : list bytes) (entries : list entry) : bool :=
+  match entries with
+  | [] => true
+  | e :: r =>
+    let st := fst e in
+    if st_is_dir st || mode_is_symlink (st_mode st) then links_ok seen r
+    else if is_nil (st_linkname st) then links_ok (st_path st :: seen) r
+    else mem_bytes (st_linkname st) seen && links_ok seen r
+  end.
+Definition announce_ok (entries : list entry) : bool :=
+  match run_validator (map (fun e : entry => {| vkind := 0; vpath := st_path (fst e); visdir := st_is_dir (fst e) |}) entries) with
+  | None => links_ok [] entries
+  | Some _ => false
+  end.
 
 (* sanity of the reference sender: the STATs it sent are the announced entries in order *)
 Definition c_stats_in (entries : list entry) (tr : list event) : bool :=
@@ -149,10 +171,11 @@ Definition stored_agrees (entries : list entry) (disk : list (bytes * bytes)) (s
 
 Definition run_0701 (input impl : sx) : sx :=
   match input, impl with
-  | SL [v; _; unch; SL [mg; SN differ]; _; _; _], SL [t; SN hang; l1; l2; _] =>
+  | SL (v :: _ :: unch :: SL [mg; SN differ] :: _ :: _ :: _ :: _), SL [t; SN hang; l1; l2; _] =>
     match dec_view v, sx_list sx_B unch, sx_bool mg, sx_list dec_event t, dec_listing l1, dec_listing l2 with
     | Some view, Some unchanged, Some merge, Some tr, Some atfin, Some atend =>
       let entries := walk_root view in
+      if negb (announce_ok entries) then v_malformed else
       let needs := fun p : bytes => merge || N.eqb differ 1 || negb (mem_bytes p unchanged) in
       let rej := first_reject (receiver_acc needs) rinit tr 0 in
       let cl := clauses7 needs entries atfin atend tr in
